@@ -179,6 +179,9 @@ def generate(seed, tier):
         files.append({"path": ("/sim/w/%s/" % dname if dirmode else "/sim/w/") + name, "tb": tb,
                       "codec": codec, "fmt": src_fmt, "layout": rng.randrange(1 << 30),
                       "enc": encs[0], "gz": gz, "kw": kw})
+        if gz and rng.random() < 0.3:
+            # several gzip members in one file (cat a.gz b.gz)
+            files[-1]["gz_members"] = sorted(rng.random() for _ in range(rng.choice([1, 2])))
     return {"files": files, "steps": steps, "dirmode": dirmode,
             "one_process": rng.random() < 0.33, "io_seed": rng.randrange(1 << 30),
             "short_reads": rng.random() < 0.8, "listdir_seeds": [rng.randrange(1 << 30),
